@@ -435,7 +435,10 @@ func init() {
 			base := ks[i].id.String()
 			other := ks[(i+1)%len(ks)].id.String()
 			for _, text := range []string{base + "#" + base[8:], base + "#" + other[8:], base + "?x=1", base + "/path", base + "#", base + " ", " " + base, base + "\n",
-				"DID:KEY:" + base[8:], "did:key:" + base[8:] + "=", base + ";v=1"} {
+				"DID:KEY:" + base[8:], "did:key:" + base[8:] + "=", base + ";v=1",
+				// the versioned spelling of the did:key method, extra or empty segments, another multibase prefix in front
+				"did:key:1:" + base[8:], "did:key:1.0:" + base[8:], "did:key:2:" + base[8:], "did:key::" + base[8:], "did:key:" + base[8:] + ":", "did:key:" + base[8:] + ":1",
+				"did:key:key:" + base[8:], "did:key:z" + base[8:], "did:key:" + base[9:], "did::key:" + base[8:], "did:key:\t" + base[8:], "did:key:" + base[8:] + "\x00", "urn:did:key:" + base[8:]} {
 				rep.Evaluations++
 				if _, err := did.Parse(text); err == nil {
 					if d, _ := did.Parse(text); d.String() != text {
